@@ -193,7 +193,7 @@ pub fn gen_bank(rng: &mut Rng) -> B {
         2 => rng.u64_mixed(),
         _ => u64::MAX,
     };
-    B {
+    let b = B {
         asv,
         lsv,
         sa,
@@ -239,7 +239,15 @@ pub fn gen_bank(rng: &mut Rng) -> B {
         },
         lend_cnt: rng.range(-1, 5) as i32,
         borrow_cnt: rng.range(-1, 5) as i32,
+    };
+    // a Drift bank's limit is re-scaled to nine decimals before it is compared: half of the Drift banks carry a limit so large
+    // that the re-scaling leaves the number type for a low-decimal mint (limit x 10^(9-d) >= 2^79), or sits right at that edge
+    let mut b = b;
+    if b.asset_tag == 4 && rng.chance(2, 3) {
+        b.deposit_limit = *rng.pick(&[u64::MAX - 1, 1u64 << 63, 1u64 << 62, 100_000_000_000_000_000, 60_446_290_980_731_458, 60_446_290_980_731_459, 604_462_909_807_314, 604_462_909_807_315, 6_044_629_098_073_145_873, 6_044_629_098_073_145_874]);
+        b.mint_decimals = *rng.pick(&[0u8, 2, 4, 4, 5, 9]);
     }
+    b
 }
 
 pub fn gen_balance(rng: &mut Rng, bank: &B, now: i64) -> Bal {
